@@ -275,12 +275,45 @@ def c14(tier, seed):
 CHECKS.update({"C13": c13, "C14": c14})
 
 
+def c19(tier, seed):
+    q = tier == "quick"
+    exe = ensure_monitor("asan", "book_monitor")
+    exe_rel = ensure_monitor("rel", "book_monitor")
+    argvs = []
+    for i, sd in enumerate(_seeds(seed)):
+        if i % 2 == 0:
+            argvs.append([exe, "--seed", str(sd), "--files", str(120 if q else 3000), "--lookups", str(40 if q else 800),
+                          "--draws", "20000"])
+        else:
+            argvs.append([exe_rel, "--seed", str(sd), "--files", str(300 if q else 6000), "--lookups", str(150 if q else 4000),
+                          "--draws", "200000"])
+    c = Check("C19", tier, seed)
+    for w in run_workers(argvs, 1500):
+        c.absorb(w)
+    c.rule = ("generated book files (0..64 records, empty, truncated at every offset mod 16, duplicate keys, weights 0/1/2/3/large): "
+              "loaded multiset (peek hook) == complete records of the file; contains() exactly for file keys; best policy in argmax; "
+              "random policy: 2*10^4..2*10^5 draws per weight vector within 7 sigma of weight/sum and never a zero-weight move; decoded "
+              "moves (castling as king-takes-rook, promotions) equal the oracle's; non-trivial = distinct files / (position, weight vector)")
+    c.assumptions = ["keys with all weights zero are not sampled (the statement gives them no meaning)",
+                     "7-sigma acceptance band: false-alarm probability < 1e-11 per test"]
+    c.require("files:empty", 8)
+    c.require("files:truncated-tail", 500)
+    c.require("weight-vectors-sampled", 1000)
+    c.require("book-move:castling", 100)
+    c.require("book-move:promotion", 100)
+    return c.finish()
+
+
+CHECKS["C19"] = c19
+
+
 MONITORS = {
     "api_monitor": ("asan", "rel"),
     "tables_monitor": ("asan", "rel"),
     "kpk_monitor": ("asan", "rel"),
     "time_monitor": ("asan", "rel"),
     "eval_monitor": ("asan", "rel"),
+    "book_monitor": ("asan", "rel"),
 }
 
 
